@@ -51,7 +51,7 @@ PROPS["C12"]["trusted_base"] = CONV_TB + TLS_TB
 
 PROPS["C20"] = {
     "kinds": ["life"],
-    "rule": "life: the REAL smtp.Server driven by a scripted net.Listener (connection / temporary net.Error / permanent error per Accept) and scripted Close / Shutdown(ctx) / peer-disconnect / ctx-expiry events; every op sequence over the 10-letter alphabet {conn, temp, perm, close, shutdown, finish 0, finish 1, expire, wclose, wshutdown} up to length 3 (thorough: 4), seeded random scripts of length 4-9, and the back-off cap (10 temporary errors: 5..640,1000,1000 ms). wclose / wshutdown are Close / Shutdown with a connection in the window between Accept's return and its handler's registration in s.conns, forced deterministically: the scripted listener's Close (called by the server under s.locker, after s.done is closed) hands the connection to the pending Accept and returns when Serve has spawned the handler (tag accept-window). Recorded: what Serve/Close/Shutdown returned, which connections the server closed, the measured back-off delays. Compared with ServerLife.v (CheckLife.check_life) and judged against the property text on the recorded behaviour alone (monitor mon_step/mon_final). The data-race half is not case based: tools/accesses regenerates coq/gen/Accesses.v from /repo and LocksetInst.conn_races_exactly is re-proved by vm_compute on every run.",
+    "rule": "life: the REAL smtp.Server driven by a scripted net.Listener (connection / temporary net.Error / permanent error per Accept) and scripted Close / Shutdown(ctx) / peer-disconnect / ctx-expiry events; every op sequence over the 10-letter alphabet {conn, temp, perm, close, shutdown, finish 0, finish 1, expire, wclose, wshutdown} up to length 3 (thorough: 4), seeded random scripts of length 4-9, and the back-off cap (10 temporary errors: 5..640,1000,1000 ms). wclose / wshutdown are Close / Shutdown with a connection in the window between Accept's return and its handler's registration in s.conns, forced deterministically: the scripted listener's Close (called by the server under s.locker, after s.done is closed) hands the connection to the pending Accept and returns when Serve has spawned the handler (tag accept-window). A listener whose Close RETURNS AN ERROR (the first time / every time; tag listener-close-fails) is scripted for Close, Shutdown, wclose and wshutdown over 10 connection situations (none, registered, several, finished, mixed, after temporary errors, Serve already gone after a permanent Accept error) x 9 continuations (second calls, peers finishing in both orders, ctx expiry, a late accept), every op sequence up to length 2 (thorough: 3) and seeded random scripts: Close must return that error AND have closed every registered connection, Shutdown must block while a connection is active and return the error when the last one has finished. Recorded: what Serve/Close/Shutdown returned, which connections the server closed, the measured back-off delays. Compared with ServerLife.v (CheckLife.check_life) and judged against the property text on the recorded behaviour alone (monitor mon_step/mon_final). The data-race half is not case based: tools/accesses regenerates coq/gen/Accesses.v from /repo and LocksetInst.conn_races_exactly is re-proved by vm_compute on every run.",
     "trusted_base": [
         "tools/accesses (syntactic go/ast translator: field accesses, c.locker regions, calls, go literals, joins); it exits non-zero on any construct it cannot classify",
         "flattening of control flow: a function body is the sequence of ALL its accesses in source order (every branch, loop bodies once, deferred calls last); every real path's accesses are a subsequence with the same lock status",
